@@ -8,6 +8,23 @@ BASELINE = ("cd /repo && /venv/bin/python -m pytest -ra -q -p no:cacheprovider -
 
 # id -> (engine spec modules, technique, level text, level note, design ref)
 CLAIMED = {
+ "C01": ("spec/stream/StreamOps.tla + StreamOpsC01(Q|T).tla + Broadcast.tla + trace/StreamOpsTrace.tla",
+         "TLC model checking of the expression-tree pull machine built by the operator templates against the index-wise "
+         "definition + replay of every enumerated program on real Stream/list/tuple/generator operands with symbolic "
+         "elements (and on int/float/complex/Fraction/bool) + TLC judgement of random deeper trees and of every "
+         "(broadcast function, container kind) call",
+         "All 35 operator methods x all operand-kind pairs with a Stream on at least one side x lengths 0..3 (periodic "
+         "1..2) at depth 1, and depth-2 trees over an operator basis, are enumerated by TLC: the pull machine (plain, "
+         "reflected and Python-mirrored comparison templates, scalar capture, stop with the shortest operand) equals "
+         "out[i] = op(L[i], R[i]). Every program is run for real on opaque symbolic elements, so the comparison is term "
+         "equality independent of arithmetic, and re-run on five concrete element types against the same terms "
+         "interpreted with the stdlib operator module. Random trees of depth <= 5 over all operators and every "
+         "function of the math/dB/MIDI family on 14 container kinds are judged by TLC (container kind returned, "
+         "laziness, length, per-element agreement).",
+         "At least one operand of each binary node is Stream-typed; lengths <= 3 exhaustively, <= 12 randomly; depth <= 2 "
+         "exhaustively, <= 5 randomly; values of transcendental functions compared with the same libm function applied "
+         "per element; concrete types only where the type implements the operator. Trusted: TLC, the Sym term builder.",
+         "DESIGN.md section 4 C01"),
  "C03": ("spec/stream/StreamHist.tla + StreamHistC03.tla + trace/StreamHistTrace.tla",
          "TLC exhaustive enumeration of method histories on a pull-machine model of Stream/tee/StreamTeeHub checked "
          "against an immutable list model (history-as-state) + replay of every enumerated history on real Stream "
@@ -23,7 +40,7 @@ CLAIMED = {
          "never-passing filters on endless streams and exact-tie float counts are excluded; a stream handed to "
          "append/tee/thub is dead afterwards (documented). Trusted: TLC, the dump parser, the 100-line replay shim.",
          "DESIGN.md section 4 C03"),
- "C04": ("spec/dsp/Filter.tla + FilterC04.tla + trace/FilterTrace.tla",
+ "C04": ("spec/dsp/Filter.tla + FilterC04(Q|T).tla + trace/FilterTrace.tla",
          "TLC exhaustive check that the generated-code register machine equals the difference equation on "
          "linear-form samples + replay of every TLC state into the real filter through every construction and "
          "memory route + TLC judgement of recorded runs of random higher-order filters",
@@ -127,6 +144,22 @@ CLAIMED = {
          "Bounded universes (3x3 exhaustively, 8x5 randomly); keys are attribute-safe strings; values pairwise "
          "unequal hashables. Trusted: TLC, the TLA+ value parser, the projection function.",
          "DESIGN.md section 4 C15"),
+ "C20": ("spec/dsp/Analysis.tla + AnalysisC20.tla + trace/AnalysisTrace.tla",
+         "TLC exhaustive check that each tool's code-shaped machine (deque/running mean, ZFilter strategies as cases of "
+         "Filter.tla's register machine, running total, delay-line+abs+deque, one-pole recursion symbolic in the pole, "
+         "clip branches, two-loop zcross, unwrap delta accumulator) equals its defining formula or satisfies the stated "
+         "relational clauses + replay of every TLC state into the real tools + TLC judgement of recorded long runs",
+         "The linear tools (maverage x3, accumulate x3) are decided for every input of bounded length and every zero "
+         "value through linear-form samples; amdf, envelope, clip, zcross and unwrap on every input of length <= 3-5 "
+         "over rational pools that hit every threshold position, crossed with hysteresis, first_sign, limits and "
+         "(max_delta, step) grids. Every reached state (36k quick / 521k thorough) is executed on the real code through "
+         "all strategy aliases, containers and number types; unwrap deviations from the model are judged only by the "
+         "statement's three clauses; hundreds to thousands of random runs up to 300 samples are judged by TLC.",
+         "integer sizes/lags >= 1, hysteresis >= 0, max_delta >= 0, step > 0, exact rational samples; fractional lags "
+         "and the irrational default max_delta/step not covered; maverage/amdf/envelope compute in floats and are "
+         "compared with 1e-9(1+|exact|); envelope gain/pole read from the code's own lowpass(cutoff). Trusted: TLC, "
+         "Rat/Lin, LinForm.",
+         "DESIGN.md section 4 C20"),
 }
 
 NOT_YET = "check not built yet in this round (see DESIGN.md section 9 for the order of work)"
